@@ -1626,4 +1626,5 @@ pub(crate) mod tests;
 
 // Verification hook (inert unless built by `cargo kani`, which sets --cfg kani).
 #[cfg(kani)]
+#[rustfmt::skip] // the module file only exists in the verification scratch tree
 mod verif_kani;
